@@ -420,6 +420,7 @@ class Check:
         self.rng = random.Random(seed * 1000003 + int(hashlib.sha256(prop.encode()).hexdigest()[:8], 16))
         self.violations = []      # dicts: kind, case, ... (new, unlisted)
         self.known_seen = {}      # id -> example
+        self.known_count = {}     # id -> number of cases classified into it
         self.broken = []          # proof / translator / correspondence items that no longer check
         self.coverage = {'evaluations': 0, 'distinct_nontrivial': 0, 'samples': [], 'obligations': 0,
                          'discharged': 0, 'checker_cmd': '', 'trusted_base': [], 'rule': ''}
@@ -449,6 +450,10 @@ class Check:
     def known_hit(self, kid, example):
         if kid not in self.known_seen:
             self.known_seen[kid] = example
+        self.known_count[kid] = self.known_count.get(kid, 0) + 1
+        if os.environ.get('VERIF_DUMP_KNOWN'):
+            with open(os.path.join(CACHE, 'known_hits_%s.jsonl' % self.prop), 'a') as f:
+                f.write(json.dumps({'id': kid, 'example': example}) + '\n')
 
     def is_known(self, kid):
         return any(k['id'] == kid for k in self.known)
@@ -542,6 +547,7 @@ class Check:
         self.coverage['distinct_nontrivial'] = len(self.distinct)
         self.coverage['histogram'] = self.histogram
         self.coverage['known_findings_seen'] = sorted(self.known_seen)
+        self.coverage['known_findings_hits'] = dict(sorted(self.known_count.items()))
         self.coverage['broken'] = self.broken
         ev = {'property_id': self.prop, 'tier': self.tier, 'seed': self.seed, 'level': level,
               'coverage': self.coverage, 'assumptions': self.assumptions, 'wall_s': round(wall, 2),
